@@ -21,9 +21,15 @@ def sampleTable : List (Nat × Bool × Bool) := [
 def lookupSample (n : Nat) : Option (Bool × Bool) :=
   (sampleTable.find? (fun e => e.1 = n)).map (·.2)
 
+/-- proposed repair of F5: `Parser::name` also accepts `_` after the first character.
+`false` = the code as it is. -/
+def underscoreInNames : Bool := false
+
 def driverClass : CharClass where
   alpha c := if c.toNat < 128 then asciiAlpha c else ((lookupSample c.toNat).map (·.1)).getD false
-  alnum c := if c.toNat < 128 then asciiAlnum c else ((lookupSample c.toNat).map (·.2)).getD false
+  alnum c :=
+    if c.toNat < 128 then asciiAlnum c || (underscoreInNames && c == '_')
+    else ((lookupSample c.toNat).map (·.2)).getD false
 
 def classifiable (s : List Char) : Bool :=
   s.all (fun c => c.toNat < 128 || (lookupSample c.toNat).isSome)
